@@ -26,6 +26,10 @@ ASSUMPTIONS = [
     'matches made inside at<> are look-ahead: their nodes are part of the tree (as the property says) but need not lie inside their parent nor before their '
     'later siblings by position; for grammars with at<> the positional containment/ordering checks are replaced by the comparison with the reference order',
     'parse_tree::parse fixes apply_mode::action and rewind_mode::optional; parse_tree_to_dot and nodes over a std::string source are not covered',
+    'grammars are built from seq, sor, star, opt, at, not_at, must, try_catch_type_return_false, a directly recursive rule and named/leaf rules; the other '
+    'combinators (plus, until, rep*, if_then_else, rematch, ...) reach the tree builder through the same Control< Rule >::match frames (C08) and are not run here',
+    'translation options for these units: ll2c --inline-gep (address computations written out at their use) and --typed-new (operator new of a node allocates '
+    'a typed object); like every translation they are validated per query against the g++ build on 20 000 inputs',
 ]
 
 S0, S1, S2 = 'sym<0>', 'sym<1>', 'sym<2>'
@@ -58,7 +62,7 @@ GRAMMARS = [
                 ('e.r == 1 && %s && T_res[1][%s] == 1' % (OK0, Q0), 'first alternative kept')]}),
     ('star', N0('star< %s >, %s' % (N1, S1)),
      {'all': ALL, 'fold': {100: 'fold', 101: 'store'}, 'discard': {100: 'discard', 101: 'store'}, 'remove': {100: 'store', 101: 'remove'}},
-     {'cap': 4, 'maxch': 3, 'maxd': 2, 'maxn': 5, 'thorough': {'cap': 5, 'maxch': 4, 'maxn': 6},
+     {'cap': 4, 'maxch': 3, 'maxd': 2, 'maxn': 5, 'thorough': {'cap': 6, 'maxch': 5, 'maxn': 7},
       'reach': [('e.r == 1 && ts_n >= 3', 'several sibling nodes'), ('e.r == 1 && ts_n <= 1', 'repetition matched nothing')]}),
     ('at', N0('at< %s >, %s' % (N1, N1)),
      {'all': ALL, 'inner_only': {101: 'store'}},
@@ -111,9 +115,9 @@ GRAMMARS = [
      {'cap': 4, 'maxch': 2, 'maxd': 1, 'maxn': 3, 'action': 'bool', 'maxres': 1, 'stack': ['all'],
       'reach': [('e.r == 1 && %s && c12_veto(101, sp_start) == 2 && ts_id[0] == 102' % OK0, "the rule's own action throws, the guard catches: no node of that rule is left"),
                 ('e.r == 1 && ts_id[0] == 101', 'guarded branch kept')]}),
-    ('deep', 'sor< ' + 'seq< ' * 9 + 'seq< %s, %s >' % (N1, S1) + ' >' * 9 + ', %s >' % N2,
+    ('deep', 'sor< seq< ' + 'seq< ' * 9 + N1 + ' >' * 9 + ', %s >, %s >' % (S1, N2),
      {'all': ALL},
-     {'cap': 13, 'maxch': 2, 'maxd': 1, 'maxn': 3, 'mem_gb': 8, 'thorough_only': True,
+     {'cap': 13, 'maxch': 2, 'maxd': 1, 'maxn': 3, 'mem_gb': 8, 'N': 2, 'maxres': 1, 'thorough': {'N': 2},
       'reach': [('e.r == 1 && %s && T_res[1][%s] == 0' % (OK0, Q0), 'selected rule ten levels below the backtracking point dropped'), ('e.r == 1 && ts_id[0] == 101', 'kept')]}),
 ]
 
@@ -131,7 +135,7 @@ def plan(ctx):
         for tag, sel in sels.items():
             o = dict(opts)
             if not ctx.quick():
-                o['N'] = o.get('N', 3) + 1
+                o['N'] = o.get('N', 3) + 2
                 o.update(opts.get('thorough', {}))
             n = o.get('N', 3)
             K = o.get('K', 3)
